@@ -71,6 +71,9 @@ var c20Families = map[string]func(n int) string{
 	"crlf-lines":           func(n int) string { return "SELECT a\r\n" + strings.Repeat(", a\r\n", n) + "FROM t" },
 	"tabs":                 func(n int) string { return "SELECT a" + strings.Repeat(",\ta", n) + " FROM t" },
 	"non-ascii-identifier": func(n int) string { return "SELECT é" + strings.Repeat(", é", n) + " FROM t" },
+	"lookahead-words-line":  func(n int) string { return "SELECT full" + strings.Repeat(", left", n) + " FROM t" },
+	"lookahead-words-lines": func(n int) string { return "SELECT full\n" + strings.Repeat(", outer\n", n) + "FROM t" },
+	"dollar-words":          func(n int) string { return "SELECT 1" + strings.Repeat(", $abc", n) },
 	"group-by-list":        func(n int) string { return "SELECT a FROM t GROUP BY a" + strings.Repeat(", a", n) },
 	"order-by-list":        func(n int) string { return "SELECT a FROM t ORDER BY a" + strings.Repeat(", a DESC", n) },
 }
@@ -112,7 +115,7 @@ var c20Ops = map[string]c20Op{
 
 func runC20(c *runCtx) {
 	res := c.res
-	res.Rule = "for each input family (27 shapes: long lines, many lines, comment lines, inline and block comments, AND/OR/arithmetic/concatenation chains, wide lists, many statements, set-operation chains, joins, long literals and identifiers, CASE arms, CTEs, CRLF, tabs, non-ASCII) x each entry point (tokenize, parse, AST.SQL, AST.Format, Scan, ScanSQL, ExtractMetadata): user CPU time of the call alone, measured in a child process at sizes n, 2n, 4n (minimum of repeated runs; n raised until the call takes >= 25 ms or the input reaches the size ladder's top); a cell is superlinear when the cost more than triples at both doublings (n log n predicts ~2.1-2.3) and the largest run takes >= 150 ms (distinct = distinct (family, entry point) cells measured)"
+	res.Rule = "for each input family (30 shapes: long lines, many lines, comment lines, inline and block comments, AND/OR/arithmetic/concatenation chains, wide lists, many statements, set-operation chains, joins, long literals and identifiers, CASE arms, CTEs, CRLF, tabs, non-ASCII) x each entry point (tokenize, parse, AST.SQL, AST.Format, Scan, ScanSQL, ExtractMetadata): user CPU time of the call alone, measured in a child process at sizes n, 2n, 4n (minimum of repeated runs; n raised until the call takes >= 25 ms or the input reaches the size ladder's top); a cell is superlinear when the cost more than triples at both doublings (n log n predicts ~2.1-2.3) and the largest run takes >= 150 ms (distinct = distinct (family, entry point) cells measured)"
 	pool := newChildPool()
 	pool.env = []string{"GOMAXPROCS=1"} // the collector runs on the measured thread: user time is that of one thread
 	defer pool.Close()
